@@ -28,7 +28,18 @@ pub const REFS: &[(&str, &str)] = &[
   ("DefB", "import DefB from \"./b.ts\";\n"),
   ("PrivT | undefined", "type PrivT = { a: number };\n"),
   ("PrivG<PrivT>", "type PrivT = { a: number };\ntype PrivG<T> = { g: T };\n"),
+  // names reached through nested `export *` barrels
+  ("Leaf", "import { Leaf } from \"./barrel.ts\";\n"),
+  ("Leaf | MidT", "import { Leaf } from \"./barrel.ts\";\nimport { Mid as MidT } from \"./barrel.ts\";\n"),
+  ("MidT", "import { Mid as MidT } from \"./mid.ts\";\n"),
+  ("DepT", "import type { DepT } from \"jsr:@s/b@1\";\n"),
 ];
+
+pub const BARREL_SRC: &str = "export * from \"./mid.ts\";\nexport const barrelOwn: number = 1;\n";
+pub const MID_SRC: &str = "export * from \"./leaf.ts\";\nexport interface Mid { m: number }\n";
+pub const LEAF_SRC: &str = "export interface Leaf { l: number }\nexport const leafV: number = 1;\n";
+/// the dependency package: named exports and a default export
+pub const DEP_SRC: &str = "export interface DepT { d: number }\nexport const depV: number = 1;\nexport default class DepDefault { x: number = 1; }\n";
 
 /// Declaration templates for mod.ts. `@R` = reference form, `@N` = slot number.
 /// The flag says whether the declaration is expected to be *diagnosable*
@@ -52,6 +63,18 @@ pub const DECLS: &[(&str, &str)] = &[
   ("const-arrow-identifier-body", "const other@N = 5;\nexport const c@N = () => other@N;\n"),
   ("const-fn-expr", "export const c@N = function (a: @R): @R { return a; };\n"),
   ("const-object-literal", "export const c@N = { a: 1, b: \"x\", c: [1, 2] };\n"),
+  ("const-object-computed-key-call", "function mk@N(): string { return \"k\"; }\nexport const c@N = { [mk@N()]: 1, plain: 2 };\n"),
+  ("const-object-computed-key-leavable", "const key@N = \"k\";\nexport const c@N = { [key@N]: 1, [\"lit\"]: 2 };\n"),
+  ("const-array-with-call", "function mk@N(): number { return 1; }\nexport const c@N = [1, mk@N()];\n"),
+  ("const-object-value-call", "function mk@N(): number { return 1; }\nexport const c@N = { a: 1, b: mk@N() };\n"),
+  ("const-object-spread-call", "function mk@N(): object { return {}; }\nexport const c@N = { a: 1, ...mk@N() };\n"),
+  ("const-template-with-call", "function mk@N(): string { return \"x\"; }\nexport const c@N = `a${mk@N()}`;\n"),
+  ("const-conditional-with-new", "export const c@N = 1 ? new Date() : 2;\n"),
+  ("const-member-of-call", "function mk@N(): { p: number } { return { p: 1 }; }\nexport const c@N = mk@N().p;\n"),
+  ("const-object-with-method", "export const c@N = { m(): number { return 1; }, get g(): number { return 2; } };\n"),
+  ("class-prop-call-initialiser", "function mk@N(): number { return 1; }\nexport class C@N { p = mk@N(); q = [mk@N()]; }\n"),
+  ("fn-param-default-call", "function mk@N(): number { return 1; }\nexport function f@N(a = mk@N(), b = { [mk@N()]: 1 }): void {}\n"),
+  ("const-nested-arrow-in-object", "export const c@N = { f: (a: @R): @R => a, g: function (): void {} };\n"),
   ("const-identifier", "const src@N: @R = null as any;\nexport const c@N = src@N;\n"),
   ("const-call", "function mk@N(): @R { return null as any; }\nexport const c@N = mk@N();\n"),
   ("let-annotated", "export let l@N: @R;\n"),
@@ -80,6 +103,9 @@ pub const DECLS: &[(&str, &str)] = &[
   ("reexport-named", "export { helper as h@N } from \"./b.ts\";\n"),
   ("reexport-star", "export * from \"./b.ts\";\n"),
   ("reexport-star-as", "export * as ns@N from \"./b.ts\";\n"),
+  ("reexport-star-barrel", "export * from \"./barrel.ts\";\n"),
+  ("reexport-star-jsr", "export * from \"jsr:@s/b@1\";\n"),
+  ("reexport-named-jsr", "export { depV as dv@N, default as DepD@N } from \"jsr:@s/b@1\";\n"),
   ("export-local-list", "const loc@N: @R = null as any;\ntype LT@N = @R;\nexport { loc@N, type LT@N as Alias@N };\n"),
   ("import-equals", "namespace Q@N { export type W = @R; }\nimport W@N = Q@N.W;\nexport type T@N = W@N;\n"),
   ("typeof-value", "const tv@N = 1;\nexport type T@N = typeof tv@N;\n"),
@@ -104,6 +130,8 @@ pub const C_SRC: &str = "export interface CT { c: number }\nexport const cv: num
 
 pub struct GenPkg {
   pub pkg: FcPackage,
+  /// the dependency package @s/b (also imported by the root program)
+  pub dep: FcPackage,
   /// identifiers of declarations that are neither exported nor referenced
   pub unused_markers: Vec<String>,
   pub decl_names: Vec<&'static str>,
@@ -130,7 +158,7 @@ pub fn gen_package(ch: &Ch, mod_slots: usize) -> GenPkg {
       }
       has_default = true;
     }
-    if dn == "reexport-star" {
+    if dn == "reexport-star" || dn == "reexport-star-barrel" || dn == "reexport-star-jsr" {
       if has_star {
         continue;
       }
@@ -181,8 +209,21 @@ pub fn gen_package(ch: &Ch, mod_slots: usize) -> GenPkg {
     pkg: FcPackage {
       name: "@s/a".into(),
       version: "1.0.0".into(),
-      files: vec![("/mod.ts".into(), src), ("/b.ts".into(), b_src), ("/c.ts".into(), C_SRC.to_string())],
+      files: vec![
+        ("/mod.ts".into(), src),
+        ("/b.ts".into(), b_src),
+        ("/c.ts".into(), C_SRC.to_string()),
+        ("/barrel.ts".into(), BARREL_SRC.to_string()),
+        ("/mid.ts".into(), MID_SRC.to_string()),
+        ("/leaf.ts".into(), LEAF_SRC.to_string()),
+      ],
       exports,
+    },
+    dep: FcPackage {
+      name: "@s/b".into(),
+      version: "1.0.0".into(),
+      files: vec![("/mod.ts".into(), DEP_SRC.to_string())],
+      exports: vec![(".".to_string(), "./mod.ts".to_string())],
     },
     unused_markers: unused,
     decl_names,
